@@ -31,8 +31,8 @@ def plan(tier, seed):
 
 def allowed_names(element):
     rn = mrule.node_mappings.get(element)
-    if rn is None:
-        return None
+    if rn is None or rn not in emlkit.rules_table():
+        return None if rn is None else set()
     return set(emlkit.spec_of(rn).names)
 
 
